@@ -40,7 +40,7 @@ fuzz_target!(|data: &[u8]| {
             _ => return,
         }
         let PreprocessorContext { label_map, fn_map, .. } = ctx;
-        let mut ictx = InterpreterContext { fn_map, label_map, call_stack: vec![0] };
+        let mut ictx = InterpreterContext { fn_map, label_map, call_stack: vec![0], ..Default::default() };
         VMC.with(|v| {
             let mut vm = v.borrow_mut();
             let mut ctr = 0usize;
